@@ -1,1 +1,131 @@
-import EoNVerif.Model.Complex
+import EoNVerif.Proofs.Complex
+/-!
+C15 — property theorems for the model of `Gillespie_complex_contagion` (all proved).  `InfluenceCovers`, `WF`, `Inv`
+are defined (unchanged) in `EoNVerif/Proofs/Complex.lean` together with the helper lemmas; this file keeps only the
+property theorems and the non-vacuity example.
+-/
+namespace Complex
+variable {σ : Type} [DecidableEq σ]
+
+theorem init_inv (P : CCParams σ) (h : WF P) (ic : Node → σ) (tmin : Rat) :
+    ∃ s, init P ic tmin = some s ∧ Inv P s ∧ s.status = ic := init_inv' P h ic tmin
+
+/-- one event on a candidate node: no KeyError, the new status is the chooser's answer, the invariant is restored -/
+theorem applyEvent_inv (P : CCParams σ) (h : WF P) (s : CCState σ) (hs : Inv P s) (node : Node) (t : Rat)
+    (hn : node ∈ s.ld.items) :
+    ∃ s', applyEvent P s node t = some s' ∧ Inv P s' ∧
+      s'.status = fset s.status node (P.choose s.status node) := applyEvent_inv' P h s hs node t hn
+
+/-- for every tape: every state reached by the loop satisfies the invariant -/
+theorem loop_inv (P : CCParams σ) (h : WF P) (tmax : ERat) (cfuel fuel : Nat) (s s' : CCState σ) (t : ERat)
+    (ts ts' : TapeSt) (hs : Inv P s) (hl : loop P tmax cfuel fuel s t ts = .ok (s', ts')) : Inv P s' :=
+  loop_inv' P h tmax cfuel fuel s s' t ts ts' hs hl
+
+theorem run_inv (P : CCParams σ) (h : WF P) (ic : Node → σ) (tmin : Rat) (tmax : ERat) (fuel cfuel : Nat)
+    (ts ts' : TapeSt) (s' : CCState σ) (hr : run P ic tmin tmax fuel cfuel ts = .ok (s', ts')) : Inv P s' :=
+  run_inv' P h ic tmin tmax fuel cfuel ts ts' s' hr
+
+/-- **clock**: the rate handed to `expovariate` is the sum of the user rates on the current statuses -/
+theorem clock_eq (P : CCParams σ) (h : WF P) (s : CCState σ) (hs : Inv P s) :
+    s.ld.totalWeight = sumRat (P.nodes.map (P.rate s.status)) := clock_eq' P h s hs
+
+/-- **stop condition**: the loop's guard `total_weight() > 0` is "some node has a positive rate" -/
+theorem stop_iff (P : CCParams σ) (h : WF P) (s : CCState σ) (hs : Inv P s) :
+    (0 < s.ld.totalWeight) ↔ ∃ x ∈ P.nodes, 0 < P.rate s.status x := stop_iff' P h s hs
+
+/-- **selection law**: the next node is `x` with probability rate(x)/Σ rates (times `1-ρ^k`, the probability that the
+rejection sampler has stopped within `k` rounds) -/
+theorem next_node_law (P : CCParams σ) (h : WF P) (s : CCState σ) (hs : Inv P s) (x : Node) (hx : x ∈ P.nodes)
+    (hpos : 0 < P.rate s.status x) (k : Nat) :
+    Dist.mass (s.ld.chooseDist k) (fun o => o == some x) =
+      P.rate s.status x / sumRat (P.nodes.map (P.rate s.status)) * (1 - s.ld.rejProb ^ k) :=
+  next_node_law' P h s hs x hx hpos k
+
+/-- a node of rate zero is never selected -/
+theorem zero_rate_never (P : CCParams σ) (h : WF P) (s : CCState σ) (hs : Inv P s) (x : Node) (hx : x ∈ P.nodes)
+    (h0 : P.rate s.status x = 0) (k : Nat) :
+    Dist.mass (s.ld.chooseDist k) (fun o => o == some x) = 0 := zero_rate_never' P h s hs x hx h0 k
+
+/-- the loop never fails with `KeyError` from a state satisfying the invariant (extra, not in the target list) -/
+theorem loop_no_keyerror_inv (P : CCParams σ) (h : WF P) (tmax : ERat) (cfuel fuel : Nat) (s : CCState σ) (t : ERat)
+    (ts : TapeSt) (hs : Inv P s) : loop P tmax cfuel fuel s t ts ≠ .error "KeyError" :=
+  loop_no_keyerror P h tmax cfuel fuel s t ts hs
+
+end Complex
+
+/-! ### non-vacuity: the SIR-like family of the harness on the path 0 – 1 – 2 satisfies every hypothesis -/
+namespace Complex.Example
+
+def nbrs3 : Node → List Node
+  | 0 => [1]
+  | 1 => [0, 2]
+  | 2 => [1]
+  | _ => []
+
+def P3 : CCParams St where
+  nodes := [0, 1, 2]
+  rate := ComplexFam.rateOf "sir" [0, 1, 2] nbrs3 1 (1/2) 1
+  choose := ComplexFam.chooseOf "sir"
+  infl := fun _ u => ComplexFam.inflOf "sir" [0, 1, 2] nbrs3 u
+  ret := [St.S, St.I, St.R]
+
+def ic3 : Node → St := fun u => if u = 0 then St.I else St.S
+
+/-- `init` succeeds: node 0 (infected, rate γ = 1/2) and node 1 (one infected neighbour, rate τ = 1) are the candidates -/
+example : ((init P3 ic3 0).map fun s => (s.ld.items, s.ld.weight, s.ld.total, s.data)) =
+    some ([0, 1], [(0, 1/2), (1, 1)], 3/2, [[2], [1], [0]]) := by decide +kernel
+
+/-- the event "node 1 becomes infected": node 1 is re-weighted to γ, its neighbour 2 enters with rate τ, the counters move -/
+example : ((init P3 ic3 0).bind fun s => (applyEvent P3 s 1 1).map fun s' =>
+      (s'.ld.items, s'.ld.weight, s'.ld.total, s'.data)) =
+    some ([1, 0, 2], [(1, 1/2), (0, 1/2), (2, 1)], 2, [[1, 2], [2, 1], [0, 0]]) := by decide +kernel
+
+theorem P3_rate_nonneg (st : Node → St) (u : Node) : 0 ≤ P3.rate st u := by
+  show 0 ≤ ComplexFam.rateOf "sir" [0, 1, 2] nbrs3 1 (1/2) 1 st u
+  unfold ComplexFam.rateOf
+  cases st u with
+  | S => simp
+  | I => norm_num
+  | R => simp
+
+theorem P3_covers : InfluenceCovers P3 := by
+  intro st u x hx hxu hne
+  by_contra hni
+  apply hne
+  have hfx : fset st u (P3.choose st u) x = st x := Gillespie.fset_ne _ _ _ _ hxu
+  show ComplexFam.rateOf "sir" [0, 1, 2] nbrs3 1 (1/2) 1 _ x = ComplexFam.rateOf "sir" [0, 1, 2] nbrs3 1 (1/2) 1 st x
+  unfold ComplexFam.rateOf
+  rw [hfx]
+  have hn : ComplexFam.nInf nbrs3 (fset st u (P3.choose st u)) x = ComplexFam.nInf nbrs3 st x := by
+    unfold ComplexFam.nInf
+    congr 1
+    apply List.filter_congr
+    intro v hv
+    have hvu : v ≠ u := by
+      rintro rfl
+      apply hni
+      show x ∈ ComplexFam.inflOf "sir" [0, 1, 2] nbrs3 v
+      have hx' : x = 0 ∨ x = 1 ∨ x = 2 := by simpa [P3] using hx
+      rcases hx' with rfl | rfl | rfl <;> simp [nbrs3] at hv <;> rcases hv with rfl | rfl <;> decide
+    rw [Gillespie.fset_ne _ _ _ _ hvu]
+  have e1 : ¬ ("sir" = "twohop") := by decide
+  simp only [if_neg e1, hn]
+
+theorem P3_wf : WF P3 where
+  nodup := by decide
+  rate_nonneg := P3_rate_nonneg
+  infl_mem := by
+    intro st u x hx
+    have : x ∈ ComplexFam.inflOf "sir" [0, 1, 2] nbrs3 u := hx
+    unfold ComplexFam.inflOf at this
+    simp only [show ("sir" = "twohop") = False by decide, if_false] at this
+    exact (List.mem_filter.1 this).1
+  covers := P3_covers
+
+/-- all hypotheses of the property theorems (including `InfluenceCovers`) hold for the concrete parameters, so the
+theorems apply: e.g. every state reached by `run` satisfies the invariant -/
+example (tmax : ERat) (fuel cfuel : Nat) (ts ts' : TapeSt) (s' : CCState St)
+    (hr : run P3 ic3 0 tmax fuel cfuel ts = .ok (s', ts')) : Inv P3 s' :=
+  run_inv P3 P3_wf ic3 0 tmax fuel cfuel ts ts' s' hr
+
+end Complex.Example
